@@ -78,6 +78,13 @@ func genHistory(g *gen.Gen, n int, timed bool) []op {
 			o.Op = "addRule"
 			o.Id = []string{"r1", "r2", "f3"}[g.Intn(3)]
 			o.Fact = map[string]interface{}{"when": map[string]interface{}{"pattern": map[string]interface{}{"e": gen.Strs[g.Intn(3)]}}, "action": map[string]interface{}{"code": "1"}}
+			if g.Intn(5) == 0 {
+				// a replacement that indexed state refuses (the `when` holds an unsortable array), over
+				// an id that may hold a fact or a rule: whatever was there stays, searchable as before
+				o.Id = ids[g.Intn(len(ids))]
+				o.Fact["when"] = map[string]interface{}{"pattern": map[string]interface{}{"q": []interface{}{"x", 1.0}}}
+				break
+			}
 			switch g.Intn(5) {
 			case 0:
 				o.Fact["expires"] = float64(future + g.Intn(1000))
